@@ -606,6 +606,12 @@ def reference(line):
             x = ms / 1000.0 + float(sec)
             n, den = x.as_integer_ratio()
             return "%d %d %d %s %s" % (n, den.bit_length() - 1, r, " ".join(str(v) for v in py_fields(r)[:7]), py_fmt(4, r))
+        if op == "diff":
+            m1, m2 = int(t[1]), int(t[2])
+            if not (MS_MIN <= m1 <= MS_MAX and MS_MIN <= m2 <= MS_MAX):
+                return None
+            n, den = (m1 / 1000.0 - m2 / 1000.0).as_integer_ratio()
+            return "%d %d %d" % (n, den.bit_length() - 1, m1 - m2)
         if op == "cmp":
             m1, m2 = int(t[1]), int(t[2])
             if not (MS_MIN <= m1 <= MS_MAX and MS_MIN <= m2 <= MS_MAX):
@@ -877,7 +883,8 @@ def gen(rng, tier):
             batch.append("addsec %d %d" % (ms, sec))
             m2 = ms + rng.choice([0, 1, -1, 2, -2, 1000, -1000, rng.randrange(-10 ** 6, 10 ** 6)]) if rng.random() < 0.8 else rand_ms(rng)
             batch.append("cmp %d %d" % (ms, m2))
-        batch += ["addsec 0 0", "addsec %d 0" % MS_MAX, "addsec %d -1" % MS_MIN, "addsec 1 x", "cmp 5", "cmp %d %d" % (MS_MIN, MS_MAX), "cmp %d %d" % (MS_MAX, MS_MAX + 1)]
+            batch.append("diff %d %d" % ((ms, m2) if rng.random() < 0.5 else (m2, ms)))
+        batch += ["addsec 0 0", "addsec %d 0" % MS_MAX, "addsec %d -1" % MS_MIN, "addsec 1 x", "cmp 5", "diff %d %d" % (MS_MAX, MS_MIN), "diff %d %d" % (MS_MIN, MS_MAX), "diff 0 0", "diff 7 %d" % (MS_MIN - 1), "diff 1", "cmp %d %d" % (MS_MIN, MS_MAX), "cmp %d %d" % (MS_MAX, MS_MAX + 1)]
         cases.append(batch)
     for k in (-719162, -1, 0, 1, 11016, 47482, 2932896):       # t = 86400 k - eps, eps = 0.0001 .. 0.0009 s
         cases.append(["instu %d" % (k * 86400 * 1000000 - e) for e in (100, 200, 300, 400, 600, 700, 800, 900) if not (abs(k) > 100000 and e in (400, 600))])
@@ -1008,7 +1015,7 @@ def gen(rng, tier):
 
 
 def nontrivial(case):
-    return any(l.split()[0] in ("inst", "instu", "dbl", "addsec", "cmp", "tieu", "rtp", "split", "splitu", "make", "rt", "fmt", "fmtu", "parsefmt") or (l.startswith("parse ") and len(l.split()[1]) >= 16) for l in case)
+    return any(l.split()[0] in ("inst", "instu", "dbl", "addsec", "cmp", "diff", "tieu", "rtp", "split", "splitu", "make", "rt", "fmt", "fmtu", "parsefmt") or (l.startswith("parse ") and len(l.split()[1]) >= 16) for l in case)
 
 
 def _parse_class(b):
